@@ -33,7 +33,7 @@ CMP = ("x", "fun", "jac", "nfev", "njev", "nit", "sk", "yk")
 
 def floors(tier):
     return {"callback_states": 300, "states_vs_maxiter_run": 300, "retained_states_rechecked": 800, "crash_points": 500,
-            "restarts_from_retained_state": 500, "callback_free_runs_compared": 60, "callback_free_runs_compared_with_objective_redefined": 60, "callback_free_runs_compared_with_nested_run_in_callback": 30,
+            "restarts_from_retained_state": 500, "callback_free_runs_compared": 60, "callback_free_runs_compared_with_objective_redefined": 60, "callback_free_runs_compared_with_nested_run_in_callback": 30, "problems_with_reused_gradient_buffer": 20,
             "ufd_runs_stopped_by:FTOL": 20, "continuations_compared_to_the_end": 400, "continuations_through_a_failed_line_search": 40, "__nontrivial__": 300}
 
 
@@ -49,6 +49,8 @@ def cases(tier, seed):
                            starts=("interior", "face", "vertex", "outward"), condmax=1e3)
         spec = {"problem": ps, "maxcor": int(rng.integers(1, 7)), "maxls": int(gen.pick(rng, [2, 5, 20])), "K": int(rng.integers(4, 13)),
                 "scaler": float(np.exp(rng.uniform(np.log(1e-2), np.log(1e2)))) if i % 3 == 0 else None}
+        if i % 5 == 2:
+            spec["reuse_grad_buffer"] = True  # the user's gradient fills and returns one preallocated array
         if i % 4 == 1:
             # long runs with a starved line search: several failed line searches (memory reboots) inside one run; the crash
             # enumeration is limited to the first callbacks, every state is followed to the end of the run
@@ -227,6 +229,9 @@ def run(spec):
     P = gen.make_problem(spec["problem"])
     K = spec["K"]
     base = dict(jac="callable", maxcor=spec["maxcor"], maxls=spec["maxls"], ftol=0.0, gtol=1e-12, maxfun=100000)
+    if spec.get("reuse_grad_buffer"):
+        base["reuse_grad_buffer"] = True
+        out.count("problems_with_reused_gradient_buffer")
     if spec.get("scaler"):
         # snapshot and maxiter=k run are compared in the same (scaled) units; the recovery restart is made on the explicitly
         # scaled objective without scaler, which is what the state's values refer to
